@@ -100,6 +100,8 @@ fn handle(line: &str, oracle: bool) -> String {
             },
             None => bad(),
         },
+        // sessions that also use build_generated_message: oracle only (the model answers BAD-OP as well)
+        (["BUILDSEQG", rest @ ..], o) => if o { l3::oracle_buildseq_gen(rest) } else { "BAD-OP".into() },
         (["BUILDSEQ", rest @ ..], o) => if o { l3::oracle_buildseq(rest) } else { l3::op_buildseq(rest) },
         (["STR88591", n, rest @ ..], o) => match n.parse::<usize>() {
             Ok(n) => if o { l3::oracle_str88591(n, rest) } else { l3::op_str88591(n, rest) },
